@@ -294,9 +294,12 @@ CLAIMED = {
             "equation; r*G = O (Jacobian evaluation in the kernel, compared with the affine evaluation on every run); the curve is "
             "non-singular; h*r lies in the Hasse interval and is the only multiple of r in it; for the BN sets p = p(x), r = r(x), cofactor 1 "
             "and embedding degree 12. Tie: every identifier 0..119 is offered to ep_param_set; each accepted one must be in the extracted "
-            "table and report the same p, a, b, G, r, h and flags, plus an advertised level consistent with the order size. PARTIAL: the "
-            "255/381-bit configurations, binary fields/curves, endomorphism/GLV constants, twist generators and Frobenius constants are not "
-            "in the extracted table yet.",
+            "table and report the same p, a, b, G, r, h and flags, plus an advertised level consistent with the order size; the embedding "
+            "degree is checked two ways (multiplicative order of p modulo r against the declared family), the twist table of "
+            "ep2_curve_set_twist is extracted too (coefficients, generator on the twist, h*r one of the six twist orders over Fp2), and the "
+            "GLV constants are checked per selection by the driver (k*G = k0*G + k1*psi(G) with short k0, k1; derived beta). PARTIAL: the "
+            "255/381-bit parameter sets are exercised by C04/C12/C13/C17 but not certified here, binary curves are checked per line in "
+            "C16, Frobenius constants through C10/C11.",
             "Trusted: Lean kernel (decide +kernel on literals); tools/translate_params.py (regex extraction after gcc -E; unknown "
             "constructs are translation failures); untrusted certificate search (sympy) — only the checked certificate counts; Hasse's "
             "theorem is a hypothesis of the reading 'h*r is the curve order'.",
